@@ -25,7 +25,9 @@ ASSUMPTIONS = ["equality of the numerical roots is a tolerance statement: both s
 def param_points(tier, r):
     pts = [dict(alpha=0.2, psi=0.7, cs2=1 / 3, cb2=1 / 3, Tn=1.0),      # bag: mu == nu (defect C15-T fixed in 108cf41)
            dict(alpha=0.3, psi=0.6, cs2=0.3, cb2=0.25, Tn=100.0),
-           dict(alpha=0.005, psi=0.95, cs2=0.25, cb2=0.32, Tn=0.01)]
+           dict(alpha=0.005, psi=0.95, cs2=0.25, cb2=0.32, Tn=0.01),
+           # strong transitions ("order one"): the minimal wall velocity lies ABOVE the sound speed in front of the wall (a hybrid carries the strongest shock)
+           dict(alpha=1.1, psi=0.6, cs2=0.25, cb2=0.24, Tn=1.0), dict(alpha=1.3, psi=0.55, cs2=0.30, cb2=0.28, Tn=50.0)]
     want = len(pts) + (3 if tier == "quick" else 30)
     tries = 0
     while len(pts) < want and tries < 2000:
